@@ -398,7 +398,7 @@ package machine
 //@ pred ReqClosed(schema Schema, s S) := forall x, r string :: mem(s, x) && mem(schema[x].Require, r) ==> mem(s, r)
 
 //@ func (rr *DefaultRelationsResolver) getMissingRequires(name string, state State, states S) (ret S)
-//@   props C02
+//@   props C02 C19
 //@   pure
 //@   requires nn: rr.Transition != nil && rr.Transition.Mutation != nil && rr.Transition.Machine != nil
 //@   ensures  def: forall r string :: mem(ret, r) <==> mem(state.Require, r) && !mem(states, r)
@@ -406,14 +406,14 @@ package machine
 //@   loop 1 invariant def: fresh(ret) && (forall r string :: mem(ret, r) <==> (exists j int :: 0 <= j && j < idx1 && state.Require[j] == r && !mem(states, r)))
 
 //@ func (rr *DefaultRelationsResolver) stateBlockedBy(blockingStates S, blocked string) (ret S)
-//@   props C02
+//@   props C02 C19
 //@   requires nn: rr.Transition != nil && rr.Transition.Mutation != nil && rr.Transition.Machine != nil && rr.Machine != nil
 //@   ensures  def: forall b string :: mem(ret, b) <==> mem(blockingStates, b) && mem(rr.Machine.schema[b].Remove, blocked)
 //@   ensures  fresh: fresh(ret)
 //@   loop 1 invariant def: fresh(blockedBy) && (forall b string :: mem(blockedBy, b) <==> (exists j int :: 0 <= j && j < idx1 && blockingStates[j] == b && mem(rr.Machine.schema[b].Remove, blocked)))
 
 //@ func (rr *DefaultRelationsResolver) parseRequire(states S) (ret S)
-//@   props C02
+//@   props C02 C19
 //@   irrelevant missingMap
 //@   requires nn: rr.Transition != nil && rr.Transition.Mutation != nil && rr.Transition.Machine != nil && rr.Machine != nil
 //@   ensures  sub:    forall x string :: mem(ret, x) ==> mem(states, x)
@@ -438,7 +438,7 @@ package machine
 //@ pred AddClosed(rr *DefaultRelationsResolver, r S) := forall s, a string :: mem(r, s) && AddApplies(rr, s) && AddOf(rr, s, a) ==> mem(r, a)
 
 //@ func (rr *DefaultRelationsResolver) parseAdd(states S) (ret S)
-//@   props C02
+//@   props C02 C19
 //@   requires nn: rr.Transition != nil && rr.Transition.Mutation != nil && rr.Transition.Machine != nil && rr.Machine != nil
 //@   ensures  sup:       forall x string :: mem(states, x) ==> mem(ret, x)
 //@   ensures  justified: forall x string :: mem(ret, x) ==> mem(states, x) || (exists s string :: mem(ret, s) && mem(rr.Machine.schema[s].Add, x))
